@@ -24,6 +24,7 @@ def table_cases(rng, n_tables, tier):
         cont = (t % 5 == 4)
         names = list(zoo.NAMES[:k]);
         if rng.random() < 0.3: rng.shuffle(names)
+        if t % 7 == 3: names = ['segment_of_customers_with_a_very_long_common_prefix_' + nm for nm in names]          # names that differ only after 50 characters
         case = zoo.table_case(counts, kind=kind, nan_counts=nanc, dev_counts=dev, dev_nan=devnan, names=names, continuous=cont)
         # thresholds placed ON observed group frequencies
         N = sum(a + b for a, b in counts) + (sum(nanc) if nanc else 0); Nn = sum(a + b for a, b in counts)
